@@ -204,37 +204,129 @@ Proof.
 Qed.
 
 (* ================= sequences of definitions ================= *)
-(* each definition is accepted w.r.t. a set of taken predicates that contains the initial one, the
-   predicates defined before and possibly more (definitions of the other direction) *)
-Inductive def_chain : list pred -> list formula -> Prop :=
-| dc_nil taken : def_chain taken []
-| dc_cons taken taken' f p w rest :
-    definition f taken = Ok (p, w) -> incl (p :: taken) taken' -> def_chain taken' rest ->
-    def_chain taken (f :: rest)
-| dc_weaken taken taken' fs : incl taken taken' -> def_chain taken' fs -> def_chain taken fs.
+(* THE EXACT CHAIN (audit A18 b).  An accepted outline is a sequence of entries each of which was
+   checked against a set of taken predicates; [outline_chain m taken l] threads that set through the
+   WHOLE entry list exactly as ProofOutline::from_specification does:
+     a lemma / inductive lemma    adds the predicates of its formula   (repair of F12)
+     a definition                 is accepted by [definition] w.r.t. the CURRENT set - defined
+                                  predicate not in it, body over it only - and adds its predicate.
+   There is no weakening constructor: the set a definition is checked against is the initial one
+   plus the predicates of the EARLIER entries and nothing else (chain_taken_spec), so the clause
+   "the body mentions only predicates of the task or of earlier entries" is carried by the chain
+   (chain_definition_earlier).  The former [def_chain] had a constructor [dc_weaken] that let the
+   set grow arbitrarily ([def_chain [] [forall X (p(X) <-> zzz(X))]] held although the code refuses
+   that definition); it is gone. *)
+Definition entry_formula (m : placeholders) (a0 : aformula_annot) : formula := an_formula (rp_annot m a0).
+Definition is_lemma_entry (m : placeholders) (a0 : aformula_annot) : Prop :=
+  an_role (rp_annot m a0) = RLemma \/ an_role (rp_annot m a0) = RInductiveLemma.
 
-Theorem defs_conservative taken fs : def_chain taken fs ->
+Inductive outline_chain (m : placeholders) : list pred -> specification -> Prop :=
+| oc_nil taken : outline_chain m taken []
+| oc_lemma taken a0 rest :
+    is_lemma_entry m a0 ->
+    outline_chain m (iset_extend pred_dec taken (predicates (entry_formula m a0))) rest ->
+    outline_chain m taken (a0 :: rest)
+| oc_def taken a0 rest p w :
+    an_role (rp_annot m a0) = RDefinition ->
+    definition (entry_formula m a0) taken = Ok (p, w) ->
+    outline_chain m (iset_insert pred_dec taken p) rest ->
+    outline_chain m taken (a0 :: rest).
+
+(* the definitions of a chain (both directions), as the outline stores them *)
+Definition is_definition_entry (a : aformula_annot) : bool :=
+  match an_role a with RDefinition => true | _ => false end.
+Definition chain_definitions (m : placeholders) (l : specification) : list aformula_annot :=
+  filter is_definition_entry (map (rp_annot m) l).
+
+(* a list of formulas is CONSERVATIVE over a vocabulary: every interpretation can be changed
+   outside the vocabulary so that all of them become true *)
+Definition conservative_over (taken : list pred) (fs : list formula) : Prop :=
   forall FI M, exists M', pagree taken M M' /\ (forall f, In f fs -> cvalid FI M' f).
+
+Lemma conservative_over_incl taken fs fs' : incl fs' fs -> conservative_over taken fs -> conservative_over taken fs'.
+Proof. intros Hi H FI M. destruct (H FI M) as [M' [Ha Hv]]. exists M'. split; [exact Ha|]. intros f Hf. apply Hv, Hi, Hf. Qed.
+
+Lemma definition_head_pred f taken p w : definition f taken = Ok (p, w) -> In p (predicates f).
 Proof.
-  induction 1 as [taken|taken taken' f p w rest Hd Hincl Hrest IH|taken taken' fs Hincl Hrest IH]; intros FI M.
-  - exists M. split; [intros r a _; tauto|intros f []].
-  - destruct (definition_conservative f taken p w Hd FI M) as [M1 [Hoff Hf]].
-    destruct (IH FI M1) as [M' [Hag Hv]]. exists M'. split.
-    + intros r a Hin. rewrite <- (Hag r a (Hincl _ (or_intror Hin))). symmetry. apply Hoff.
-      intros E. destruct (definition_shape f taken p w Hd) as [_ [_ [_ [_ [_ [_ [_ [_ [_ [_ [Hfresh _]]]]]]]]]]].
-      apply Hfresh. rewrite <- E. exact Hin.
-    + intros g [<-|Hg]; [|apply Hv, Hg].
-      apply (cvalid_pagree FI M1 M' f); [|exact Hf].
-      intros r a Hin. apply Hag. destruct (definition_predicates f taken p w Hd _ Hin) as [E|Ht];
-        apply Hincl; [left; symmetry; exact E|right; exact Ht].
-  - destruct (IH FI M) as [M' [Hag Hv]]. exists M'. split; [|exact Hv].
-    intros r a Hin. apply Hag, Hincl, Hin.
+  intros H. destruct (definition_shape f taken p w H) as [vs [q [ts [rhs [tv [-> [-> _]]]]]]].
+  cbn. apply (in_iset_extend pred_dec). left. left. reflexivity.
 Qed.
 
-(* predicates of the definitions of a chain: taken ones and defined ones - never constrained
-   beyond the chain: the defined predicates are outside the initial taken set *)
-Lemma def_chain_incl taken taken0 fs : incl taken0 taken -> def_chain taken fs -> def_chain taken0 fs.
-Proof. intros Hi Hc. exact (dc_weaken taken0 taken fs Hi Hc). Qed.
+Theorem chain_conservative m taken l : outline_chain m taken l ->
+  conservative_over taken (map an_formula (chain_definitions m l)).
+Proof.
+  unfold chain_definitions.
+  induction 1 as [taken|taken a0 rest Hl Hrest IH|taken a0 rest p w Hr Hd Hrest IH]; intros FI M.
+  - exists M. split; [intros r a _; tauto|intros f []].
+  - cbn [map filter]. unfold is_definition_entry at 1.
+    destruct Hl as [-> | ->]; destruct (IH FI M) as [M' [Hag Hv]]; exists M';
+      (split; [intros r a Hin; apply Hag, (in_iset_extend pred_dec); auto|exact Hv]).
+  - cbn [map filter]. unfold is_definition_entry at 1. rewrite Hr. cbn [map].
+    destruct (definition_conservative _ taken p w Hd FI M) as [M1 [Hoff Hf]].
+    destruct (IH FI M1) as [M' [Hag Hv]]. exists M'. split.
+    + intros r a Hin. rewrite <- (Hag r a (proj2 (in_iset_insert pred_dec _ _ _) (or_introl Hin))).
+      symmetry. apply Hoff. intros E.
+      destruct (definition_shape _ taken p w Hd) as [_ [_ [_ [_ [_ [_ [_ [_ [_ [_ [Hfresh _]]]]]]]]]]].
+      apply Hfresh. rewrite <- E. exact Hin.
+    + intros g [<-|Hg]; [|apply Hv, Hg].
+      apply (cvalid_pagree FI M1 M' (entry_formula m a0)); [|exact Hf].
+      intros r a Hin. apply Hag. apply (in_iset_insert pred_dec).
+      destruct (definition_predicates _ taken p w Hd _ Hin) as [E|Ht]; [right; exact E|left; exact Ht].
+Qed.
+
+(* the set an entry is checked against: the initial set and the predicates of the earlier entries *)
+Definition defined_pred (f : formula) : option pred :=
+  match f with
+  | FQ QForall _ (FBin CIff (FAtomic (AAtom q ts)) _) => Some (mkpred q (List.length ts))
+  | _ => None
+  end.
+Definition entry_preds (m : placeholders) (a0 : aformula_annot) : list pred := predicates (entry_formula m a0).
+
+Lemma definition_defined_pred f taken p w : definition f taken = Ok (p, w) -> defined_pred f = Some p.
+Proof.
+  intros H. destruct (definition_shape f taken p w H) as [vs [q [ts [rhs [tv [-> [-> _]]]]]]]. reflexivity.
+Qed.
+
+(* the set the entry after [pre] is checked against = initial set + predicates of the entries of [pre] *)
+Lemma chain_split m : forall pre taken a0 post, outline_chain m taken (pre ++ a0 :: post) ->
+  exists taken', outline_chain m taken' (a0 :: post) /\
+    (forall q, In q taken' <-> In q taken \/ exists b, In b pre /\ In q (entry_preds m b)).
+Proof.
+  induction pre as [|b pre IH]; intros taken a0 post H; cbn [app] in H.
+  - exists taken. split; [exact H|]. intros q. split; [auto|intros [Hq|[b [[] _]]]; exact Hq].
+  - inversion H as [|tk b' rest Hl Hrest|tk b' rest p w Hr Hd Hrest]; subst.
+    + destruct (IH _ _ _ Hrest) as [taken' [Hc Hin]]. exists taken'. split; [exact Hc|].
+      intros q. rewrite Hin, (in_iset_extend pred_dec). unfold entry_preds. split.
+      * intros [[Hq|Hq]|[c [Hc' Hq]]]; [auto|right; exists b; split; [left; reflexivity|exact Hq]
+                                        |right; exists c; split; [right; exact Hc'|exact Hq]].
+      * intros [Hq|[c [[<-|Hc'] Hq]]]; [auto|auto|right; exists c; auto].
+    + destruct (IH _ _ _ Hrest) as [taken' [Hc Hin]]. exists taken'. split; [exact Hc|].
+      intros q. rewrite Hin, (in_iset_insert pred_dec). unfold entry_preds. split.
+      * intros [[Hq|Hq]|[c [Hc' Hq]]]; [auto| |right; exists c; split; [right; exact Hc'|exact Hq]].
+        subst q. right. exists b. split; [left; reflexivity|]. exact (definition_head_pred _ _ _ _ Hd).
+      * intros [Hq|[c [[<-|Hc'] Hq]]]; [auto| |right; exists c; auto].
+        destruct (definition_predicates _ _ _ _ Hd q Hq) as [->|Ht]; auto.
+Qed.
+
+(* THE PROPERTY CLAUSE: a definition at any position of an accepted outline has the shape
+   forall Xs (p(ts) <-> F); p occurs neither in the task (the initial set) nor in an earlier entry;
+   F mentions only predicates of the task or of earlier entries *)
+Theorem chain_definition_earlier m taken pre a0 post :
+  outline_chain m taken (pre ++ a0 :: post) -> an_role (rp_annot m a0) = RDefinition ->
+  exists vs q ts rhs,
+    entry_formula m a0 = FQ QForall vs (FBin CIff (FAtomic (AAtom q ts)) rhs) /\
+    (~ In (mkpred q (List.length ts)) taken /\
+     forall b, In b pre -> ~ In (mkpred q (List.length ts)) (entry_preds m b)) /\
+    (forall r, In r (predicates rhs) -> In r taken \/ exists b, In b pre /\ In r (entry_preds m b)).
+Proof.
+  intros H Hr. destruct (chain_split m pre taken a0 post H) as [taken' [Hc Hin]].
+  inversion Hc as [|tk b' rest [Hl|Hl] _|tk b' rest p w _ Hd _]; subst; try congruence.
+  destruct (definition_shape _ _ _ _ Hd) as [vs [q [ts [rhs [tv [Ef [Ep [_ [_ [_ [Hfresh [_ Hbody]]]]]]]]]]]].
+  exists vs, q, ts, rhs. split; [exact Ef|]. rewrite <- Ep. split.
+  - split; [intros Hq; apply Hfresh, Hin; auto|].
+    intros b Hb Hq. apply Hfresh, Hin. right. exists b. auto.
+  - intros r Hrr. apply Hin, Hbody, Hrr.
+Qed.
 
 (* ================= lemmas ================= *)
 (* a general lemma is sound if the truth of its conjectures implies the truth of its consequences *)
@@ -265,56 +357,54 @@ Proof.
 Qed.
 
 (* what from_specification accepts *)
-Definition outline_ok (taken : list pred) (o0 o : proof_outline) : Prop :=
-  exists fd bd fl bl,
-    forward_definitions o = forward_definitions o0 ++ fd /\ backward_definitions o = backward_definitions o0 ++ bd /\
-    forward_lemmas o = forward_lemmas o0 ++ fl /\ backward_lemmas o = backward_lemmas o0 ++ bl /\
-    def_chain taken (map an_formula fd) /\ def_chain taken (map an_formula bd) /\
-    Forall (fun g => lemma_sound g /\ lemma_roles g) fl /\ Forall (fun g => lemma_sound g /\ lemma_roles g) bl.
+(* the entries of a direction, in source order (direction filtering: an entry annotated
+   `forward` goes to the forward lists, `backward` to the backward lists, no annotation to both) *)
+Definition dir_selects (fwd : bool) (d : direction) : bool :=
+  match d with
+  | DUniversal => true
+  | DForward => fwd
+  | DBackward => negb fwd
+  end.
+Definition definitions_of_dir (fwd : bool) (m : placeholders) (l : specification) : list aformula_annot :=
+  filter (fun a => is_definition_entry a && dir_selects fwd (an_dir a)) (map (rp_annot m) l).
+Definition closed_entry (m : placeholders) (a0 : aformula_annot) : aformula_annot :=
+  let anf := rp_annot m a0 in
+  rp_annot m (mkannot (an_role anf) (an_dir anf) (an_name anf)
+                (universal_closure_with_quantifier_joining (an_formula anf))).
+Definition lemmas_of_dir (fwd : bool) (m : placeholders) (l : specification) : list general_lemma :=
+  flat_map (fun a0 =>
+              let anf := rp_annot m a0 in
+              match an_role anf with
+              | RLemma | RInductiveLemma =>
+                  if dir_selects fwd (an_dir anf)
+                  then match general_lemma_try_from (closed_entry m a0) with Ok g => [g] | _ => [] end
+                  else []
+              | _ => []
+              end) l.
 
-Lemma outline_ok_lemma taken taken' o0 o' o g (df db : bool) :
-  incl taken taken' ->
-  forward_lemmas o' = forward_lemmas o0 ++ (if df then [g] else []) ->
-  backward_lemmas o' = backward_lemmas o0 ++ (if db then [g] else []) ->
-  forward_definitions o' = forward_definitions o0 -> backward_definitions o' = backward_definitions o0 ->
-  lemma_sound g /\ lemma_roles g -> outline_ok taken' o' o -> outline_ok taken o0 o.
-Proof.
-  intros Hincl E1 E2 E3 E4 Hg [fd [bd [fl [bl [F1 [F2 [F3 [F4 [C1 [C2 [L1 L2]]]]]]]]]]].
-  exists fd, bd, ((if df then [g] else []) ++ fl), ((if db then [g] else []) ++ bl).
-  rewrite F1, F2, F3, F4, E1, E2, E3, E4, <- !app_assoc. repeat split; auto.
-  - eapply dc_weaken; eauto.
-  - eapply dc_weaken; eauto.
-  - destruct df; cbn; [constructor; auto|auto].
-  - destruct db; cbn; [constructor; auto|auto].
-Qed.
+Definition outline_ok (m : placeholders) (taken : list pred) (l : specification) (o0 o : proof_outline) : Prop :=
+  outline_chain m taken l /\
+  forward_definitions o = forward_definitions o0 ++ definitions_of_dir true m l /\
+  backward_definitions o = backward_definitions o0 ++ definitions_of_dir false m l /\
+  forward_lemmas o = forward_lemmas o0 ++ lemmas_of_dir true m l /\
+  backward_lemmas o = backward_lemmas o0 ++ lemmas_of_dir false m l /\
+  Forall (fun g => lemma_sound g /\ lemma_roles g) (lemmas_of_dir true m l) /\
+  Forall (fun g => lemma_sound g /\ lemma_roles g) (lemmas_of_dir false m l).
 
-Lemma outline_ok_def taken o0 o' o anf p w (df db : bool) :
-  definition (an_formula anf) taken = Ok (p, w) ->
-  forward_definitions o' = forward_definitions o0 ++ (if df then [anf] else []) ->
-  backward_definitions o' = backward_definitions o0 ++ (if db then [anf] else []) ->
-  forward_lemmas o' = forward_lemmas o0 -> backward_lemmas o' = backward_lemmas o0 ->
-  outline_ok (iset_insert pred_dec taken p) o' o -> outline_ok taken o0 o.
-Proof.
-  intros Hd E1 E2 E3 E4 [fd [bd [fl [bl [F1 [F2 [F3 [F4 [C1 [C2 [L1 L2]]]]]]]]]]].
-  exists ((if df then [anf] else []) ++ fd), ((if db then [anf] else []) ++ bd), fl, bl.
-  rewrite F1, F2, F3, F4, E1, E2, E3, E4, <- !app_assoc.
-  assert (Hincl : incl (p :: taken) (iset_insert pred_dec taken p)).
-  { intros x [<-|Hx]; apply (in_iset_insert pred_dec); auto. }
-  assert (Hincl' : incl taken (iset_insert pred_dec taken p)).
-  { intros x Hx; apply (in_iset_insert pred_dec); auto. }
-  repeat split; auto.
-  - destruct df; cbn; [eapply dc_cons; eauto|eapply dc_weaken; eauto].
-  - destruct db; cbn; [eapply dc_cons; eauto|eapply dc_weaken; eauto].
-Qed.
+Lemma rp_annot_role m a : an_role (rp_annot m a) = an_role a.
+Proof. reflexivity. Qed.
+Lemma rp_annot_dir m a : an_dir (rp_annot m a) = an_dir a.
+Proof. reflexivity. Qed.
 
 Theorem from_specification_loop_ok m : forall l taken o0 ws o ws',
-  from_specification_loop l taken m o0 ws = Ok (o, ws') -> outline_ok taken o0 o.
+  from_specification_loop l taken m o0 ws = Ok (o, ws') -> outline_ok m taken l o0 o.
 Proof.
   induction l as [|anf0 l IH]; intros taken o0 ws o ws'; cbn [from_specification_loop].
-  - intros [= <- _]. exists [], [], [], []. rewrite !app_nil_r. repeat split; auto; constructor.
+  - intros [= <- _]. unfold outline_ok, definitions_of_dir, lemmas_of_dir. cbn. rewrite !app_nil_r.
+    repeat split; auto; constructor.
   - set (anf := rp_annot m anf0).
-    assert (Hlemma : forall closed,
-      match general_lemma_try_from closed with
+    assert (Hlemma : is_lemma_entry m anf0 ->
+      match general_lemma_try_from (closed_entry m anf0) with
       | Err e => Err e
       | Panic => Panic
       | Ok g =>
@@ -324,43 +414,80 @@ Proof.
             | DForward => mkoutline (forward_lemmas o0 ++ [g]) (backward_lemmas o0) (forward_definitions o0) (backward_definitions o0)
             | DBackward => mkoutline (forward_lemmas o0) (backward_lemmas o0 ++ [g]) (forward_definitions o0) (backward_definitions o0)
             end ws
-      end = Ok (o, ws') -> outline_ok taken o0 o).
-    { intros closed. destruct (general_lemma_try_from closed) as [g|e|] eqn:Eg; try discriminate.
-      intros Hrec. apply IH in Hrec. pose proof (try_from_sound closed g Eg) as Hg.
-      assert (Hincl : incl taken (iset_extend pred_dec taken (predicates (an_formula anf)))).
-      { intros x Hx. apply (in_iset_extend pred_dec). auto. }
-      destruct (an_dir anf).
-      - apply (outline_ok_lemma taken _ o0 _ o g true true Hincl) in Hrec; auto; cbn; rewrite ?app_nil_r; reflexivity.
-      - apply (outline_ok_lemma taken _ o0 _ o g true false Hincl) in Hrec; auto; cbn; rewrite ?app_nil_r; reflexivity.
-      - apply (outline_ok_lemma taken _ o0 _ o g false true Hincl) in Hrec; auto; cbn; rewrite ?app_nil_r; reflexivity. }
-    destruct (an_role anf) eqn:Erole; try discriminate.
-    + apply Hlemma.
-    + destruct (definition (an_formula anf) taken) as [[p w]|e|] eqn:Ed; try discriminate.
-      intros Hrec. apply IH in Hrec. destruct (an_dir anf).
-      * apply (outline_ok_def taken o0 _ o anf p w true true Ed) in Hrec; auto; cbn; rewrite ?app_nil_r; reflexivity.
-      * apply (outline_ok_def taken o0 _ o anf p w true false Ed) in Hrec; auto; cbn; rewrite ?app_nil_r; reflexivity.
-      * apply (outline_ok_def taken o0 _ o anf p w false true Ed) in Hrec; auto; cbn; rewrite ?app_nil_r; reflexivity.
-    + apply Hlemma.
+      end = Ok (o, ws') -> outline_ok m taken (anf0 :: l) o0 o).
+    { intros Hle. destruct (general_lemma_try_from (closed_entry m anf0)) as [g|e|] eqn:Eg; try discriminate.
+      intros Hrec. apply IH in Hrec. pose proof (try_from_sound _ g Eg) as Hg.
+      destruct Hrec as [Hc [F1 [F2 [F3 [F4 [L1 L2]]]]]].
+      assert (Hnd : is_definition_entry anf = false).
+      { unfold is_definition_entry. destruct Hle as [E|E]; unfold anf; rewrite E; reflexivity. }
+      assert (Hlem : forall fwd, lemmas_of_dir fwd m (anf0 :: l) =
+                (if dir_selects fwd (an_dir anf) then [g] else []) ++ lemmas_of_dir fwd m l).
+      { intros fwd. unfold lemmas_of_dir at 1. cbn [flat_map]. fold anf. fold (lemmas_of_dir fwd m l).
+        destruct Hle as [E|E]; unfold anf in *; rewrite E; destruct (dir_selects fwd _); rewrite ?Eg; reflexivity. }
+      assert (Hdef : forall fwd, definitions_of_dir fwd m (anf0 :: l) = definitions_of_dir fwd m l).
+      { intros fwd. unfold definitions_of_dir. cbn [map filter]. fold anf. rewrite Hnd. reflexivity. }
+      unfold outline_ok. rewrite !Hlem, !Hdef.
+      split; [apply oc_lemma; [exact Hle|exact Hc]|].
+      destruct (an_dir anf); cbn [dir_selects negb forward_lemmas backward_lemmas
+                                   forward_definitions backward_definitions] in *;
+        rewrite F1, F2, F3, F4, <- ?app_assoc; cbn [app];
+        (split; [reflexivity|]); (split; [reflexivity|]); (split; [reflexivity|]); (split; [reflexivity|]);
+        split; auto. }
+    unfold closed_entry in Hlemma. fold anf in Hlemma. revert Hlemma.
+    destruct (an_role anf) eqn:Erole; intros Hlemma; try discriminate.
+    + apply Hlemma. left. exact Erole.
+    + clear Hlemma. destruct (definition (an_formula anf) taken) as [[p w]|e|] eqn:Ed; try discriminate.
+      intros Hrec. apply IH in Hrec. destruct Hrec as [Hc [F1 [F2 [F3 [F4 [L1 L2]]]]]].
+      assert (Hlem : forall fwd, lemmas_of_dir fwd m (anf0 :: l) = lemmas_of_dir fwd m l).
+      { intros fwd. unfold lemmas_of_dir at 1. cbn [flat_map]. fold anf. rewrite Erole. reflexivity. }
+      assert (Hdef : forall fwd, definitions_of_dir fwd m (anf0 :: l) =
+                (if dir_selects fwd (an_dir anf) then [anf] else []) ++ definitions_of_dir fwd m l).
+      { intros fwd. unfold definitions_of_dir. cbn [map filter]. fold anf. unfold is_definition_entry at 1.
+        rewrite Erole. cbn [andb]. destruct (dir_selects fwd (an_dir anf)); reflexivity. }
+      unfold outline_ok. rewrite !Hlem, !Hdef.
+      split; [eapply oc_def; [exact Erole|exact Ed|exact Hc]|].
+      destruct (an_dir anf); cbn [dir_selects negb forward_lemmas backward_lemmas
+                                   forward_definitions backward_definitions] in *;
+        rewrite F1, F2, F3, F4, <- ?app_assoc; cbn [app];
+        (split; [reflexivity|]); (split; [reflexivity|]); (split; [reflexivity|]); (split; [reflexivity|]);
+        split; assumption.
+    + apply Hlemma. right. exact Erole.
 Qed.
 
+(* what an accepted outline consists of *)
 Corollary from_specification_ok s taken m o ws :
   from_specification s taken m = Ok (o, ws) ->
-  def_chain taken (map an_formula (forward_definitions o)) /\
-  def_chain taken (map an_formula (backward_definitions o)) /\
+  outline_chain m taken s /\
+  forward_definitions o = definitions_of_dir true m s /\
+  backward_definitions o = definitions_of_dir false m s /\
+  forward_lemmas o = lemmas_of_dir true m s /\
+  backward_lemmas o = lemmas_of_dir false m s /\
   Forall (fun g => lemma_sound g /\ lemma_roles g) (forward_lemmas o) /\
   Forall (fun g => lemma_sound g /\ lemma_roles g) (backward_lemmas o).
 Proof.
   intros H. apply from_specification_loop_ok in H.
-  destruct H as [fd [bd [fl [bl [F1 [F2 [F3 [F4 [C1 [C2 [L1 L2]]]]]]]]]]]. cbn in F1, F2, F3, F4. subst. auto.
+  destruct H as [Hc [F1 [F2 [F3 [F4 [L1 L2]]]]]]. cbn in F1, F2, F3, F4. rewrite F3, F4. auto 10.
+Qed.
+
+(* ... hence the definitions of each direction are conservative over the task's predicates *)
+Lemma definitions_of_dir_incl fwd m l : incl (definitions_of_dir fwd m l) (chain_definitions m l).
+Proof.
+  unfold definitions_of_dir, chain_definitions. intros a Ha. apply filter_In in Ha. apply filter_In.
+  destruct Ha as [Hin Hb]. apply andb_true_iff in Hb. tauto.
+Qed.
+Corollary accepted_definitions_conservative s taken m o ws :
+  from_specification s taken m = Ok (o, ws) ->
+  conservative_over taken (map an_formula (forward_definitions o)) /\
+  conservative_over taken (map an_formula (backward_definitions o)).
+Proof.
+  intros H. destruct (from_specification_ok _ _ _ _ _ H) as [Hc [F1 [F2 _]]]. rewrite F1, F2.
+  pose proof (chain_conservative m taken s Hc) as Hcons.
+  split; (eapply conservative_over_incl; [|exact Hcons]); intros f Hf; apply in_map_iff in Hf;
+    destruct Hf as [a [<- Ha]]; apply in_map; eapply definitions_of_dir_incl; exact Ha.
 Qed.
 End Lemmas.
 
 (* ================= freshness of defined predicates (finding F12, repaired) ================= *)
-Definition defined_pred (f : formula) : option pred :=
-  match f with
-  | FQ QForall _ (FBin CIff (FAtomic (AAtom q ts)) _) => Some (mkpred q (List.length ts))
-  | _ => None
-  end.
 
 (* the letter of C13: the predicate defined by an entry occurs nowhere in the task ([seen] starts
    as the taken predicates) nor in any earlier outline entry (lemma or definition) *)
